@@ -1,6 +1,642 @@
-//! C12 — not built yet.
-use crate::rt::*;
+//! C12 — CKKS encoding is the rounded scaled canonical embedding on every path.
+//!
+//! The real `CKKSEncoder` is driven over chains of 1..19 primes of 20..60 bits, every data level,
+//! all five entry points in destination and `_new` form, with values of either sign, purely
+//! imaginary / complex values, magnitudes 0..2^60 and scales 2^0..2^(log q - 2) chosen so that the
+//! scaled magnitudes land below 64 bits, between 64 and 128 bits and above 128 bits.
+//!
+//! Oracle (independent of heathcliff::util): every RNS component of the plaintext is taken out of
+//! the NTT domain with the O(N^2) definition `refm::intt_ref` (root = the level's
+//! `small_ntt_tables()[i].root()`), the residues are CRT-lifted to ONE centered big-integer
+//! coefficient vector c (re-reduced modulo each prime to check every component), and c is compared
+//! with the expected real coefficients:
+//!   * vectors / single complex: r = scale * he::embed_encode(values) (reference inverse canonical
+//!     embedding, library slot order), |c_j - r_j| <= 1/2 + eps,
+//!       eps = scale * max|v| * 2^-52 * (N/2 + 8 log2 N + 32)
+//!     derived as: library FFT = log2 N butterfly stages, each doubles the accumulated error and
+//!     adds <= 6u * (magnitude <= 2^stage * max|v|) (complex add u, complex mul 3u, root 2u,
+//!     u = 2^-53), i.e. <= (6 log2 N + 2) u after the final multiplication by scale/N; reference:
+//!     N/2 terms of error <= 17u max|v| (table angle 12.6u, cos/sin u, product 3u) summed naively
+//!     (N/2 additions of relative error u on partial sums <= N/2 max|v|), times 2/N:
+//!     <= (N/4 + 9) * 2^-52 max|v|; one more u for scale * e_j and for BigI -> f64. Everything is
+//!     rounded up to the closed form above.
+//!   * single real / integer: constant polynomial, c_0 within 1/2 of value*scale (exactly 1/2 when
+//!     the product is exact and below 2^53, relative 2^-51 otherwise), all other coefficients 0;
+//!   * coefficient lists: c_i within 1/2 (same rule) of v_i*scale, the rest 0.
+//! decode / decode_polynomial must return the inputs within (sum of the coefficient tolerances)/scale
+//! plus he::ckks_fp_tolerance (the library decoder's documented double-precision term).
+//!
+//! Refusals. Documented thresholds (ckks_encoder.rs): scale <= 0 or log2(scale)+1 >= bitlen(q) is
+//! refused; "values too large": bit count of the largest scaled coefficient *plus one sign bit*
+//! >= bitlen(q) is refused, i.e. the accepted domain is |scaled| <= 2^(bitlen(q)-2) (which is
+//! <= q/2, so it fits); encode_i64_single accepts |v| < 2^(bitlen(q)-3). The monitor asserts
+//! "must not panic + value" inside that domain (minus a 2^-20 relative band), "must panic" when the
+//! scaled magnitude exceeds q/2 (plus band: it does not fit the modulus, the centered lift cannot
+//! be the input) and nothing in between (counted as out_of_precondition).
 
-pub fn run(_cfg: &Cfg, _rep: &mut Report) -> PropMeta {
-    PropMeta { id: "C12", level: "exploration", rule: "not built", assumptions: vec![], exhaustive: false, floor: 1 }
+use crate::big::{BigI, BigU};
+use crate::he::*;
+use crate::refm;
+use crate::rt::*;
+use heathcliff::*;
+use serde_json::{json, Value};
+use std::collections::HashMap;
+use std::sync::Arc;
+
+const P: &str = "C12";
+const BAND: f64 = 1.0 / 1048576.0; // 2^-20 relative safety band around refusal thresholds
+const TWO52: f64 = 4503599627370496.0;
+
+// ------------------------------------------------------------------ context under test
+struct Lvl { id: ParmsID, qs: Vec<u64>, roots: Vec<u64>, crt: refm::Crt, b: usize, idx: usize }
+struct Cut { spec: Spec, enc: CKKSEncoder, n: usize, lvls: Vec<Lvl> }
+
+fn build(spec: &Spec) -> Result<Cut, String> {
+    let ctx: Arc<HeContext> = spec.context()?;
+    let enc = lib(|| CKKSEncoder::new(ctx.clone())).map_err(|p| format!("CKKSEncoder::new panicked: {}", p.0))?;
+    let mut lvls = vec![];
+    let mut cur = ctx.first_context_data();
+    let mut idx = 0;
+    while let Some(c) = cur {
+        let qs: Vec<u64> = c.parms().coeff_modulus().iter().map(|m| m.value()).collect();
+        let roots: Vec<u64> = c.small_ntt_tables().iter().map(|t| t.root()).collect();
+        let crt = refm::Crt::new(&qs).ok_or("moduli not coprime")?;
+        let b = crt.big_q.bits();
+        lvls.push(Lvl { id: *c.parms_id(), qs, roots, crt, b, idx });
+        idx += 1;
+        cur = c.next_context_data();
+    }
+    Ok(Cut { spec: spec.clone(), enc, n: spec.n, lvls })
+}
+
+// ------------------------------------------------------------------ inputs
+#[derive(Clone, Debug)]
+enum Entry { Arr(Vec<C64>), F64(f64), C64s(C64), I64(i64), Poly(Vec<f64>) }
+impl Entry {
+    fn name(&self) -> &'static str {
+        match self { Entry::Arr(_) => "encode_c64_array", Entry::F64(_) => "encode_f64_single", Entry::C64s(_) => "encode_c64_single",
+            Entry::I64(_) => "encode_i64_single", Entry::Poly(_) => "encode_f64_polynomial" }
+    }
+    fn json(&self) -> Value {
+        let c = |v: &C64| json!([v.re, v.im]);
+        match self {
+            Entry::Arr(v) => json!({"len": v.len(), "values(first 16)": v.iter().take(16).map(c).collect::<Vec<_>>()}),
+            Entry::F64(v) => json!({"value": v}),
+            Entry::C64s(v) => json!({"value": c(v)}),
+            Entry::I64(v) => json!({"value": v}),
+            Entry::Poly(v) => json!({"len": v.len(), "coefficients(first 16)": v.iter().take(16).collect::<Vec<_>>()}),
+        }
+    }
+}
+struct Input { entry: Entry, scale: f64, new_form: bool, vclass: &'static str, dirty: bool }
+
+/// magnitude in [2^(m-1), 2^m)
+fn mag(rng: &mut Rng, m: i32) -> f64 { (0.5 + 0.5 * rng.f64()) * 2f64.powi(m) }
+fn sgn(rng: &mut Rng) -> f64 { if rng.bool() { 1.0 } else { -1.0 } }
+fn len_pick(rng: &mut Rng, max: usize) -> usize {
+    match rng.below(4) { 0 => max, 1 => 1, _ => rng.range(1, max as u64) as usize }
+}
+
+fn gen_values(rng: &mut Rng, slots: usize, m: i32) -> (&'static str, Vec<C64>) {
+    let len = len_pick(rng, slots);
+    let z = C64::new(0.0, 0.0);
+    let (cls, mut v): (&'static str, Vec<C64>) = match rng.below(12) {
+        0 => ("zero", vec![z; len]),
+        1 => ("real_positive", (0..len).map(|_| C64::new(mag(rng, m), 0.0)).collect()),
+        2 => ("real_negative", (0..len).map(|_| C64::new(-mag(rng, m), 0.0)).collect()),
+        3 => ("real_mixed_sign", (0..len).map(|_| C64::new(sgn(rng) * mag(rng, m), 0.0)).collect()),
+        4 => ("purely_imaginary", (0..len).map(|_| C64::new(0.0, sgn(rng) * mag(rng, m))).collect()),
+        5 => ("complex", (0..len).map(|_| C64::new(sgn(rng) * mag(rng, m), sgn(rng) * mag(rng, m))).collect()),
+        6 => { let mut v = vec![z; len]; v[len - 1] = C64::new(sgn(rng) * mag(rng, m), sgn(rng) * mag(rng, m)); ("single_slot", v) }
+        7 => ("integers_mixed_sign", (0..len).map(|_| C64::new(sgn(rng) * mag(rng, m).floor(), 0.0)).collect()),
+        8 => { let c = C64::new(sgn(rng) * mag(rng, m), sgn(rng) * mag(rng, m)); ("all_equal_complex", vec![c; len]) }
+        9 => ("mixed_magnitudes", (0..len).map(|_| { let e = rng.range(0, m.max(0) as u64) as i32; C64::new(sgn(rng) * mag(rng, e), if rng.bool() { sgn(rng) * mag(rng, e) } else { 0.0 }) }).collect()),
+        10 => ("fractions_below_1", (0..len).map(|_| C64::new(sgn(rng) * rng.f64(), sgn(rng) * rng.f64())).collect()),
+        _ => ("complex_conjugate_pairs", (0..len).map(|i| { let a = mag(rng, m); C64::new(a, if i % 2 == 0 { a } else { -a }) }).collect()),
+    };
+    if rng.chance(1, 40) { return ("empty", vec![]); }
+    // make sure one entry carries the intended magnitude (except for the classes that fix their own)
+    if cls != "zero" && cls != "fractions_below_1" && !v.is_empty() {
+        let a = mag(rng, m);
+        let i = v.len() - 1;
+        v[i] = match cls { "purely_imaginary" => C64::new(0.0, -a), "real_positive" => C64::new(a, 0.0), "integers_mixed_sign" => C64::new(-a.floor(), 0.0),
+            "real_negative" | "real_mixed_sign" => C64::new(-a, 0.0), "all_equal_complex" => v[i], _ => C64::new(-a, v[i].im) };
+    }
+    (cls, v)
+}
+
+fn gen_poly(rng: &mut Rng, n: usize, m: i32) -> (&'static str, Vec<f64>) {
+    if rng.chance(1, 40) { return ("empty", vec![]); }
+    let len = len_pick(rng, n);
+    let (cls, mut v): (&'static str, Vec<f64>) = match rng.below(7) {
+        0 => ("zero", vec![0.0; len]),
+        1 => ("positive", (0..len).map(|_| mag(rng, m)).collect()),
+        2 => ("negative", (0..len).map(|_| -mag(rng, m)).collect()),
+        3 => ("mixed_sign", (0..len).map(|_| sgn(rng) * mag(rng, m)).collect()),
+        4 => ("integers_mixed_sign", (0..len).map(|_| sgn(rng) * mag(rng, m).floor()).collect()),
+        5 => { let mut v = vec![0.0; len]; v[len - 1] = sgn(rng) * mag(rng, m); ("single_coefficient", v) }
+        _ => ("mixed_magnitudes", (0..len).map(|_| { let e = rng.range(0, m.max(0) as u64) as i32; sgn(rng) * mag(rng, e) }).collect()),
+    };
+    if cls != "zero" { let i = v.len() - 1; let a = mag(rng, m); v[i] = if cls == "positive" { a } else if cls == "integers_mixed_sign" { -a.floor() } else { -a }; }
+    (cls, v)
+}
+
+/// choose (target log2 of the scaled magnitude, tag) for a level with modulus bit length b
+fn pick_target(rng: &mut Rng, b: usize) -> (i32, &'static str) {
+    let lim = (b as i32 - 3).min(1015); // highest comfortably in-domain scaled bit size
+    let mut opts: Vec<(i32, i32, &'static str)> = vec![(0, lim.min(62), "below64")];
+    if lim >= 67 { opts.push((67, lim.min(126), "64to128")); opts.push((67, lim.min(126), "64to128")); }
+    if lim >= 132 { opts.push((132, lim, "above128")); opts.push((132, lim, "above128")); }
+    if lim >= 66 { opts.push((62, 66, "switch64")); }
+    if lim >= 131 { opts.push((126, 131, "switch128")); }
+    if b < 1000 { opts.push((b as i32 - 4, b as i32 + 1, "near_limit")); opts.push((b as i32 + 1, b as i32 + 30, "too_large")); }
+    let (lo, hi, tag) = *rng.pick(&opts);
+    (rng.range(lo as u64, hi.max(lo) as u64) as i32, tag)
+}
+
+/// split the target T into a value magnitude 2^m (m in 0..=60) and a scale 2^s (s in 0..=b-2)
+fn split(rng: &mut Rng, t: i32, b: usize) -> (i32, f64) {
+    let smax = (b as i32 - 2).min(1020);
+    let mlo = (t - smax).max(0).min(60);
+    let mhi = t.min(60).max(mlo);
+    let m = rng.range(mlo as u64, mhi as u64) as i32;
+    let s = (t - m).clamp(0, smax);
+    let mut scale = 2f64.powi(s);
+    if rng.chance(1, 4) { scale *= 1.0 + rng.f64() * 0.5; } // not a power of two; log2 stays below s + 0.585
+    (m, scale)
+}
+
+fn gen_input(rng: &mut Rng, cut: &Cut, l: &Lvl) -> Input {
+    let n = cut.n;
+    let (t, _tag) = pick_target(rng, l.b);
+    let new_form = rng.bool();
+    let dirty = !new_form && rng.bool();
+    match rng.below(10) {
+        0 | 1 | 2 => { let (m, scale) = split(rng, t, l.b); let (c, v) = gen_values(rng, n / 2, m); Input { entry: Entry::Arr(v), scale, new_form, vclass: c, dirty } }
+        3 | 4 => { let (m, scale) = split(rng, t, l.b); let (c, v) = gen_poly(rng, n, m); Input { entry: Entry::Poly(v), scale, new_form, vclass: c, dirty } }
+        5 | 6 => {
+            let (m, scale) = split(rng, t, l.b);
+            let (c, v) = match rng.below(6) { 0 => ("zero", 0.0), 1 => ("positive", mag(rng, m)), 2 => ("negative", -mag(rng, m)), 3 => ("negative_integer", -mag(rng, m).floor()),
+                4 => ("fraction_below_1", sgn(rng) * rng.f64()), _ => ("positive_integer", mag(rng, m).floor()) };
+            Input { entry: Entry::F64(v), scale, new_form, vclass: c, dirty }
+        }
+        7 => {
+            let (m, scale) = split(rng, t, l.b);
+            let (c, v) = match rng.below(5) { 0 => ("real_negative", C64::new(-mag(rng, m), 0.0)), 1 => ("purely_imaginary", C64::new(0.0, sgn(rng) * mag(rng, m))),
+                2 => ("zero", C64::new(0.0, 0.0)), 3 => ("real_positive", C64::new(mag(rng, m), 0.0)), _ => ("complex", C64::new(sgn(rng) * mag(rng, m), sgn(rng) * mag(rng, m))) };
+            Input { entry: Entry::C64s(v), scale, new_form, vclass: c, dirty }
+        }
+        _ => {
+            // integers of either sign relative to the primes of this level and to the refusal threshold
+            let qmin = *l.qs.iter().min().unwrap(); let qmax = *l.qs.iter().max().unwrap();
+            let lim_bits = (l.b as i64 - 3).clamp(1, 63) as u32; // |v| < 2^(b-3) accepted
+            let cap = |x: u64| -> i64 { x.min(i64::MAX as u64) as i64 };
+            let (c, a): (&'static str, i64) = match rng.below(10) {
+                0 => ("small", rng.below(3) as i64),
+                1 => ("below_every_prime", cap(rng.below(qmin))),
+                2 => ("between_primes", cap(rng.range(qmin, qmax))),
+                3 | 4 | 5 => ("above_every_prime", cap(qmax + 1 + rng.bits(lim_bits.min(62)))),
+                6 => ("prime_multiple_or_neighbour", cap(qmin * rng.range(1, 3) + rng.below(3)) - 1),
+                7 => ("near_threshold", cap((1u64 << lim_bits.min(62)) - 2 + rng.below(5))),
+                8 => ("extreme", if rng.bool() { i64::MAX } else { i64::MIN }),
+                _ => ("random_bits", cap(rng.bits(62))),
+            };
+            let v = if a == i64::MIN || a == i64::MAX { a } else if rng.chance(2, 3) { -a } else { a };
+            Input { entry: Entry::I64(v), scale: 1.0, new_form, vclass: c, dirty }
+        }
+    }
+}
+
+// ------------------------------------------------------------------ expectation
+struct Expect {
+    /// expected real coefficient vector (length N) and per-coefficient tolerance on |c_j - r_j|
+    r: Vec<f64>, tol: Vec<f64>,
+    /// largest expected |coefficient| (lower / upper estimate)
+    xlo: f64, xhi: f64,
+    /// bit size by the library's own rule for the path selection
+    bits: i64,
+    /// expected decode output: slots (N/2) or coefficients (N), max |value|
+    slots: Option<Vec<C64>>, coeffs: Option<Vec<f64>>, vmax: f64,
+}
+
+fn is_pow2(x: f64) -> bool { x > 0.0 && x.is_finite() && { let (m, _) = frexp(x); m == 0.5 } }
+fn frexp(x: f64) -> (f64, i32) {
+    if x == 0.0 || !x.is_finite() { return (x, 0); }
+    let bits = x.to_bits(); let e = ((bits >> 52) & 0x7ff) as i32;
+    if e == 0 { let (m, ex) = frexp(x * TWO52); return (m, ex - 52); }
+    (f64::from_bits((bits & !(0x7ffu64 << 52)) | (1022u64 << 52)), e - 1022)
+}
+
+/// tolerance for one directly scaled coefficient x = v * scale
+fn direct_tol(x: f64, exact_product: bool) -> f64 {
+    if exact_product && x.abs() < TWO52 * 2.0 { 0.5 + 1e-9 } else { 0.5 + 1e-9 + x.abs() / TWO52 * 2.0 }
+}
+
+fn expect(cut: &Cut, inp: &Input) -> Expect {
+    let n = cut.n; let scale = inp.scale;
+    let logn = n.trailing_zeros() as f64;
+    let p2 = is_pow2(scale);
+    let embed = |vals: &[C64]| -> (Vec<f64>, Vec<f64>, f64) {
+        let vmax = vals.iter().map(|v| v.re.abs().max(v.im.abs()).max(v.norm())).fold(0.0, f64::max);
+        let e = embed_encode(vals, n);
+        let r: Vec<f64> = e.iter().map(|x| x * scale).collect();
+        let eps = scale * vmax / TWO52 * (n as f64 / 2.0 + 8.0 * logn + 32.0);
+        (r, vec![0.5 + eps; n], vmax)
+    };
+    match &inp.entry {
+        Entry::Arr(v) => {
+            let (r, tol, vmax) = embed(v);
+            let rmax = r.iter().map(|x| x.abs()).fold(0.0, f64::max);
+            let eps = tol[0] - 0.5;
+            let mut slots = v.clone(); slots.resize(n / 2, C64::new(0.0, 0.0));
+            Expect { bits: rmax.max(1.0).log2().ceil().min(1e6) as i64, xlo: (rmax - eps).max(0.0), xhi: rmax + eps, r, tol, slots: Some(slots), coeffs: None, vmax }
+        }
+        Entry::C64s(c) => {
+            let v = vec![*c; n / 2];
+            let (r, tol, vmax) = embed(&v);
+            let rmax = r.iter().map(|x| x.abs()).fold(0.0, f64::max);
+            let eps = tol[0] - 0.5;
+            Expect { bits: rmax.max(1.0).log2().ceil().min(1e6) as i64, xlo: (rmax - eps).max(0.0), xhi: rmax + eps, r, tol, slots: Some(v), coeffs: None, vmax }
+        }
+        Entry::F64(v) => {
+            let x = v * scale;
+            let mut r = vec![0.0; n]; r[0] = x;
+            let mut tol = vec![0.0; n]; tol[0] = direct_tol(x, p2);
+            let bits = if x.abs() >= 1.0 { (x.abs().log2().floor().min(1e6) as i64) + 2 } else { 2 };
+            let mut co = vec![0.0; n]; co[0] = *v;
+            Expect { bits, xlo: x.abs() * (1.0 - 4.0 / TWO52), xhi: x.abs() * (1.0 + 4.0 / TWO52), r, tol, slots: Some(vec![C64::new(*v, 0.0); n / 2]), coeffs: Some(co), vmax: v.abs() }
+        }
+        Entry::I64(v) => {
+            let x = *v as f64; // only used for decode comparison and reporting; the coefficient itself is compared exactly
+            let mut r = vec![0.0; n]; r[0] = x;
+            let tol = vec![0.0; n];
+            let mut co = vec![0.0; n]; co[0] = x;
+            Expect { bits: 64 - v.unsigned_abs().leading_zeros() as i64 + 2, xlo: x.abs(), xhi: x.abs(), r, tol, slots: Some(vec![C64::new(x, 0.0); n / 2]), coeffs: Some(co), vmax: x.abs() }
+        }
+        Entry::Poly(v) => {
+            let mut r = vec![0.0; n]; let mut tol = vec![0.0; n];
+            for (i, c) in v.iter().enumerate() { r[i] = c * scale; tol[i] = direct_tol(r[i], p2); }
+            let rmax = r.iter().map(|x| x.abs()).fold(0.0, f64::max);
+            let vmax = v.iter().map(|x| x.abs()).fold(0.0, f64::max);
+            let mut co = v.clone(); co.resize(n, 0.0);
+            Expect { bits: rmax.max(1.0).log2().ceil().min(1e6) as i64, xlo: rmax * (1.0 - 4.0 / TWO52), xhi: rmax * (1.0 + 4.0 / TWO52), r, tol, slots: None, coeffs: Some(co), vmax }
+        }
+    }
+}
+
+/// magnitude path by the bit size of the largest scaled coefficient (the library switches at 64 and 128 bits;
+/// whether the sign bit is counted moves the switch by one, so the bit sizes next to it get their own label)
+fn path_label(bits: i64) -> &'static str {
+    if bits <= 62 { "scaled<=62bit" } else if bits <= 65 { "scaled 63..65bit (path switch)" } else if bits <= 126 { "scaled 66..126bit" }
+    else if bits <= 129 { "scaled 127..129bit (path switch)" } else { "scaled>=130bit" }
+}
+
+#[derive(PartialEq, Clone, Copy, Debug)]
+enum Dom { In, MustRefuse(&'static str), Band }
+
+fn pow2f(e: i64) -> f64 { if e > 1023 { f64::INFINITY } else { 2f64.powi(e as i32) } }
+
+/// domain decision from the documented thresholds (see module comment)
+fn domain(l: &Lvl, inp: &Input, ex: &Expect) -> Dom {
+    let b = l.b as i64;
+    // scale
+    if !matches!(inp.entry, Entry::I64(_)) {
+        let s = inp.scale;
+        if !(s > 0.0) { return Dom::MustRefuse("scale<=0"); }
+        let lg = s.log2();
+        let slack = if is_pow2(s) { 0.0 } else { 1e-9 };
+        if lg >= (b - 1) as f64 + slack { return Dom::MustRefuse("scale>=2^(bitlen(q)-1)"); }
+        if !(lg < (b - 1) as f64 - slack) { return Dom::Band; }
+    }
+    if let Entry::I64(v) = inp.entry {
+        let a = BigU::from_u64(v.unsigned_abs());
+        if a.shl(1) > l.crt.big_q { return Dom::MustRefuse(if (a.bits() as i64) < b { "q/2<scaled<=2^(bitlen(q)-1)" } else { "scaled>2^(bitlen(q)-1)" }); }
+        if (a.bits() as i64) + 2 < b { return Dom::In; }
+        return Dom::Band;
+    }
+    if !ex.xhi.is_finite() { return Dom::Band; } // expectation overflowed double precision: nothing asserted
+    let half_q = l.crt.big_q.to_f64() / 2.0; // +inf beyond 2^1024: then nothing is ever "too large"
+    if ex.xlo * (1.0 - BAND) - 1.0 > half_q {
+        // two structural classes: clearly above 2^(bitlen(q)-1) (more bits than q), or between q/2 and (about) 2^(bitlen(q)-1)
+        return Dom::MustRefuse(if ex.xlo * (1.0 - BAND) > pow2f(b - 1) { "scaled>2^(bitlen(q)-1)" } else { "q/2<scaled<=2^(bitlen(q)-1)" });
+    }
+    if ex.xhi * (1.0 + BAND) + 1.0 <= pow2f(b - 2) { return Dom::In; }
+    Dom::Band
+}
+
+// ------------------------------------------------------------------ the call
+fn call(cut: &Cut, l: &Lvl, inp: &Input, dest: Plaintext) -> Result<Plaintext, Panicked> {
+    let e = &cut.enc; let id = Some(l.id); let s = inp.scale;
+    lib(move || {
+        let mut d = dest;
+        match (&inp.entry, inp.new_form) {
+            (Entry::Arr(v), true) => e.encode_c64_array_new(v, id, s),
+            (Entry::Arr(v), false) => { e.encode_c64_array(v, id, s, &mut d); d }
+            (Entry::F64(v), true) => e.encode_f64_single_new(*v, id, s),
+            (Entry::F64(v), false) => { e.encode_f64_single(*v, id, s, &mut d); d }
+            (Entry::C64s(v), true) => e.encode_c64_single_new(*v, id, s),
+            (Entry::C64s(v), false) => { e.encode_c64_single(*v, id, s, &mut d); d }
+            (Entry::I64(v), true) => e.encode_i64_single_new(*v, id),
+            (Entry::I64(v), false) => { e.encode_i64_single(*v, id, &mut d); d }
+            (Entry::Poly(v), true) => e.encode_f64_polynomial_new(v, id, s),
+            (Entry::Poly(v), false) => { e.encode_f64_polynomial(v, id, s, &mut d); d }
+        }
+    })
+}
+
+/// inverse-transform every component and lift to one centered big-integer vector;
+/// Err(description) if a residue is unreduced or the lift does not reproduce a component.
+fn lift(l: &Lvl, n: usize, data: &[u64]) -> Result<Vec<BigI>, String> {
+    let k = l.qs.len();
+    if data.len() != n * k { return Err(format!("plaintext has {} words, expected {}", data.len(), n * k)); }
+    let mut comp: Vec<Vec<u64>> = vec![];
+    for i in 0..k {
+        let c = &data[i * n..(i + 1) * n];
+        if let Some(j) = c.iter().position(|&x| x >= l.qs[i]) { return Err(format!("component {} word {} = {} is not reduced modulo {}", i, j, c[j], l.qs[i])); }
+        comp.push(refm::intt_ref(c, l.roots[i], l.qs[i]));
+    }
+    let mut memo: HashMap<Vec<u64>, BigI> = HashMap::new();
+    let mut out = Vec::with_capacity(n);
+    for j in 0..n {
+        let res: Vec<u64> = (0..k).map(|i| comp[i][j]).collect();
+        let c = if let Some(c) = memo.get(&res) { c.clone() } else {
+            let c = if res.iter().all(|&x| x == 0) { BigI::zero() } else { l.crt.compose_centered(&res) };
+            // the "consistently in every RNS component" clause, checked directly
+            for i in 0..k { if c.mod_u64(l.qs[i]) != res[i] { return Err(format!("lifted coefficient {} does not reduce to component {}", j, i)); } }
+            memo.insert(res, c.clone()); c
+        };
+        out.push(c);
+    }
+    Ok(out)
+}
+
+struct Cx<'a> { cfg: &'a Cfg, grp: &'a str, case: u64 }
+
+fn describe(cut: &Cut, l: &Lvl, inp: &Input, ex: &Expect) -> Value {
+    json!({"params": cut.spec.describe(), "level": l.idx, "level_primes": l.qs, "bitlen_q": l.b, "entry": inp.entry.name(),
+        "form": if inp.new_form { "_new" } else if inp.dirty { "destination(reused)" } else { "destination(fresh)" },
+        "input": inp.entry.json(), "scale": inp.scale, "log2_scale": inp.scale.log2(), "value_class": inp.vclass,
+        "expected_max_scaled_log2": ex.xhi.max(1.0).log2()})
+}
+
+fn value_class(l: &Lvl, inp: &Input, ex: &Expect) -> String {
+    match &inp.entry {
+        Entry::I64(v) => {
+            let qmin = *l.qs.iter().min().unwrap();
+            if *v == i64::MIN { "value=i64::MIN".into() }
+            else if *v < 0 && v.unsigned_abs() > qmin { "negative,|v|>prime".into() }
+            else if *v < 0 { "negative,|v|<=every prime".into() } else if (*v as u64) > qmin { "nonnegative,v>prime".into() } else { "nonnegative,v<=every prime".into() }
+        }
+        Entry::Poly(_) => if ex.xhi >= pow2f(64) { "scaled>=2^64".into() } else { "scaled<2^64".into() },
+        _ => path_label(ex.bits).to_string(),
+    }
+}
+
+/// one input at one level: call, classify, check. Returns true if the case was asserted and held.
+fn check_one(cx: &Cx, rep: &mut Report, cut: &Cut, l: &Lvl, inp: &Input) {
+    let n = cut.n; let k = l.qs.len();
+    let name = inp.entry.name();
+    let form = if inp.new_form { "_new" } else { "destination" };
+    let ex = expect(cut, inp);
+    let dom = domain(l, inp, &ex);
+    let vc = value_class(l, inp, &ex);
+    // destination: fresh, or a plaintext that already holds an encoding at another level
+    let dest = if inp.dirty {
+        let other = &cut.lvls[(l.idx + 1) % cut.lvls.len()];
+        lib(|| cut.enc.encode_f64_single_new(-3.0, Some(other.id), 4.0)).unwrap_or_else(|_| Plaintext::new())
+    } else { Plaintext::new() };
+    let got = call(cut, l, inp, dest);
+    let info = || describe(cut, l, inp, &ex);
+    match dom {
+        Dom::Band => { rep.out_of_precondition += 1; rep.count("outside_asserted_domain", &format!("{}|{}", name, if got.is_ok() { "accepted" } else { "refused" })); return; }
+        Dom::MustRefuse(why) => {
+            rep.eval(Some(&format!("refuse|{}|{}|{}|k={}", name, form, why, k)));
+            rep.count("refusals", &format!("{}|{}|{}", name, why, if got.is_err() { "refused" } else { "NOT refused" }));
+            if got.is_ok() {
+                rep.violation(&format!("{}|{}|{}|not_refused", P, name, why), format!("{} accepted an input it must refuse ({}): {}", name, why, info()), replay_json(cx.cfg, cx.grp, cx.case, info()));
+            }
+            return;
+        }
+        Dom::In => {}
+    }
+    if let Entry::Poly(v) = &inp.entry { if v.is_empty() { rep.out_of_precondition += 1; rep.count("outside_asserted_domain", &format!("{}|empty list|{}", name, if got.is_ok() { "accepted" } else { "refused" })); return; } }
+    let path = if matches!(inp.entry, Entry::I64(_)) { "integer (no scale)" } else { path_label(ex.bits) };
+    rep.eval(Some(&format!("{}|{}|{}|{}|k={}|n={}", name, form, inp.vclass, path, k, n)));
+    rep.count("entry_point", &format!("{}{}", name, if inp.new_form { "_new" } else { "" }));
+    rep.count("magnitude_path", &format!("{}|{}", name, path));
+    rep.count("level_primes", &format!("k={:02}", k));
+    rep.count("degree", &format!("n={}", n));
+    rep.count("value_class", &format!("{}|{}", name, inp.vclass));
+    if !matches!(inp.entry, Entry::I64(_)) {
+        rep.count("scale", if is_pow2(inp.scale) { "power_of_two" } else { "not_power_of_two" });
+        rep.max("log2_scale", inp.scale.log2()); rep.min("log2_scale", inp.scale.log2());
+        rep.max("log2_scaled_magnitude_asserted", ex.xhi.max(1.0).log2());
+        rep.min("bitlen_q - log2_scale (asserted accepted)", l.b as f64 - inp.scale.log2());
+    }
+    if let Entry::I64(v) = inp.entry { if v < 0 && l.qs.iter().any(|&q| v.unsigned_abs() > q) { rep.count("integer_vs_primes", "negative,|v|>some prime"); } else if v > 0 && l.qs.iter().any(|&q| v as u64 > q) { rep.count("integer_vs_primes", "positive,v>some prime"); } else { rep.count("integer_vs_primes", "within every prime"); } }
+    let p = match got {
+        Ok(p) => p,
+        Err(e) => { rep.violation(&format!("{}|{}|{}|panic", P, name, vc), format!("{} panicked on an in-domain input: {} ; {}", name, e.0, info()), replay_json(cx.cfg, cx.grp, cx.case, info())); return; }
+    };
+    // ---- metadata
+    let want_scale = if matches!(inp.entry, Entry::I64(_)) { 1.0 } else { inp.scale };
+    if *p.parms_id() != l.id || p.scale().to_bits() != want_scale.to_bits() || p.data().len() != n * k || p.coeff_count() != n * k {
+        rep.violation(&format!("{}|{}|{}|metadata", P, name, form), format!("parms_id ok={} scale={} (want {}) data_len={} coeff_count={} (want {}) ; {}", *p.parms_id() == l.id, p.scale(), want_scale, p.data().len(), p.coeff_count(), n * k, info()), replay_json(cx.cfg, cx.grp, cx.case, info()));
+        return;
+    }
+    // ---- the plaintext is the residue vector of ONE integer coefficient vector...
+    let c = match lift(l, n, p.data()) {
+        Ok(c) => c,
+        Err(e) => { rep.violation(&format!("{}|{}|{}|rns_component", P, name, vc), format!("{} ; {}", e, info()), replay_json(cx.cfg, cx.grp, cx.case, info())); return; }
+    };
+    // ---- ...which is the rounded scaled preimage
+    let mut bad: Option<(usize, f64)> = None;
+    let mut worst = 0.0f64;
+    if let Entry::I64(v) = inp.entry {
+        let want = BigI::from_i64(v);
+        for j in 0..n { let w = if j == 0 { want.clone() } else { BigI::zero() }; if c[j] != w { bad = Some((j, c[j].sub(&w).to_f64())); break; } }
+    } else {
+        for j in 0..n {
+            let d = if ex.tol[j] == 0.0 { if c[j].is_zero() && ex.r[j] == 0.0 { 0.0 } else { f64::INFINITY } } else { (c[j].to_f64() - ex.r[j]).abs() };
+            let over = if ex.tol[j] == 0.0 { d } else { d / ex.tol[j] };
+            if over.is_nan() || over > 1.0 { if bad.is_none() { bad = Some((j, d)); } } else if over > worst { worst = over; }
+        }
+    }
+    if let Some((j, d)) = bad {
+        let mut inf = info();
+        inf["observed"] = json!({"index": j, "coefficient": c[j].to_dec(), "expected_real": ex.r[j], "tolerance": ex.tol[j], "difference": d,
+            "observed_coefficients(first 8)": c.iter().take(8).map(|x| x.to_dec()).collect::<Vec<_>>(), "expected(first 8)": ex.r.iter().take(8).collect::<Vec<_>>()});
+        rep.violation(&format!("{}|{}|{}|value", P, name, vc), format!("coefficient {} = {} but expected {} +- {} ; {}", j, c[j].to_dec(), ex.r[j], ex.tol[j], inf), replay_json(cx.cfg, cx.grp, cx.case, inf));
+        return;
+    }
+    if !matches!(inp.entry, Entry::I64(_)) { rep.max("worst |c-r| / tolerance", worst); }
+    if matches!(inp.entry, Entry::Arr(_) | Entry::C64s(_)) && ex.tol[0] > 0.75 {
+        // how much of the floating-point allowance eps was actually used (transform error only: |c-r| - 1/2 over eps)
+        let used = (0..n).map(|j| ((c[j].to_f64() - ex.r[j]).abs() - 0.5) / (ex.tol[j] - 0.5)).fold(0.0, f64::max);
+        rep.max("embedding: (|c-r| - 1/2) / eps, largest", used);
+    }
+    // ---- decode returns the input
+    let sum_tol: f64 = ex.tol.iter().sum::<f64>() / want_scale;
+    let fp = ckks_fp_tolerance(n, k, ex.vmax, want_scale);
+    let use_new = (cx.case + j_hash(&ex.r)) % 2 == 0;
+    if let Some(slots) = &ex.slots {
+        let dec = lib(|| if use_new { cut.enc.decode_new(&p) } else { let mut v = vec![C64::new(7.0, 7.0); 3]; cut.enc.decode(&p, &mut v); v });
+        rep.count("decode", if use_new { "decode_new" } else { "decode" });
+        match dec {
+            Err(e) => { rep.violation(&format!("{}|decode|after {}|panic", P, name), format!("decode panicked: {} ; {}", e.0, info()), replay_json(cx.cfg, cx.grp, cx.case, info())); return; }
+            Ok(d) => {
+                let tol = sum_tol + fp;
+                let mut w: Option<(usize, f64)> = None;
+                if d.len() != n / 2 { w = Some((d.len(), f64::INFINITY)); } else {
+                    for i in 0..n / 2 { let e = (d[i] - slots[i]).norm(); if !(e <= tol) { w = Some((i, e)); break; } }
+                }
+                if let Some((i, e)) = w {
+                    let mut inf = info(); inf["observed"] = json!({"slot": i, "error": e, "tolerance": tol, "decoded(first 4)": d.iter().take(4).map(|v| json!([v.re, v.im])).collect::<Vec<_>>()});
+                    rep.violation(&format!("{}|decode|after {},{}|value", P, name, vc), format!("slot {} off by {} > {} ; {}", i, e, tol, inf), replay_json(cx.cfg, cx.grp, cx.case, inf));
+                    return;
+                }
+            }
+        }
+    }
+    if let Some(co) = &ex.coeffs {
+        let dec = lib(|| if use_new { cut.enc.decode_polynomial_new(&p) } else { let mut v = vec![7.0; 1]; cut.enc.decode_polynomial(&p, &mut v); v });
+        rep.count("decode", if use_new { "decode_polynomial_new" } else { "decode_polynomial" });
+        match dec {
+            Err(e) => { rep.violation(&format!("{}|decode_polynomial|after {}|panic", P, name), format!("decode_polynomial panicked: {} ; {}", e.0, info()), replay_json(cx.cfg, cx.grp, cx.case, info())); return; }
+            Ok(d) => {
+                let mut w: Option<(usize, f64, f64)> = None;
+                if d.len() != n { w = Some((d.len(), f64::INFINITY, 0.0)); } else {
+                    for i in 0..n { let tol = ex.tol[i] / want_scale + fp; let e = (d[i] - co[i]).abs(); if !(e <= tol) { w = Some((i, e, tol)); break; } }
+                }
+                if let Some((i, e, tol)) = w {
+                    let mut inf = info(); inf["observed"] = json!({"coefficient": i, "error": e, "tolerance": tol, "decoded(first 4)": d.iter().take(4).collect::<Vec<_>>()});
+                    rep.violation(&format!("{}|decode_polynomial|after {},{}|value", P, name, vc), format!("coefficient {} off by {} > {} ; {}", i, e, tol, inf), replay_json(cx.cfg, cx.grp, cx.case, inf));
+                    return;
+                }
+            }
+        }
+    }
+    if rep.samples.len() < 6 && (cx.case % 7 == 3 || cx.grp == "directed") {
+        let mut s = info();
+        s["observed"] = json!({"lifted_coefficients(first 4)": c.iter().take(4).map(|x| x.to_dec()).collect::<Vec<_>>(), "expected_real(first 4)": ex.r.iter().take(4).collect::<Vec<_>>(),
+            "tolerance": ex.tol[0], "worst |c-r|/tolerance": worst, "path": path});
+        rep.sample(s);
+    }
+}
+
+fn j_hash(r: &[f64]) -> u64 { r.iter().take(4).fold(0u64, |a, x| a.wrapping_mul(31).wrapping_add(x.to_bits() >> 7)) }
+
+// ------------------------------------------------------------------ refusals of bad scales
+fn scale_refusals(cx: &Cx, rep: &mut Report, rng: &mut Rng, cut: &Cut, l: &Lvl) {
+    let b = l.b as i64;
+    let mut scales: Vec<f64> = vec![0.0, -1.0, -(2f64.powi(20)), f64::NEG_INFINITY];
+    for e in [b - 1, b, b + 7] { if e <= 1023 { scales.push(pow2f(e)); } }
+    if b - 1 <= 1022 { scales.push(pow2f(b - 1) * 1.25); }
+    scales.push(f64::INFINITY);
+    // and the largest in-domain scales must be accepted (tiny value so that it fits)
+    let mut ok_scales: Vec<f64> = vec![1.0];
+    if b - 2 <= 1023 { ok_scales.push(pow2f(b - 2)); ok_scales.push(pow2f(b - 2) * 1.4); }
+    for (list, _) in [(&scales, false), (&ok_scales, true)] {
+        for &s in list.iter() {
+            let which = rng.below(4);
+            let tiny = 2f64.powi(-3);
+            let entry = match which { 0 => Entry::Arr(vec![C64::new(tiny, -tiny)]), 1 => Entry::F64(-tiny), 2 => Entry::C64s(C64::new(0.0, tiny)), _ => Entry::Poly(vec![tiny, -tiny]) };
+            let inp = Input { entry, scale: s, new_form: rng.bool(), vclass: "tiny(scale probe)", dirty: false };
+            check_one(cx, rep, cut, l, &inp);
+        }
+    }
+}
+
+// ------------------------------------------------------------------ workloads
+fn chain_spec(rng: &mut Rng, n: usize, total: usize) -> Option<Spec> {
+    let logm = (2 * n).trailing_zeros();
+    let lo = 20u32.max(logm + 2);
+    let fam = rng.below(5);
+    let bits: Vec<u32> = (0..total).map(|_| match fam { 0 => lo, 1 => 60, 2 => rng.range(lo as u64, 60) as u32, 3 => *rng.pick(&[lo, 30, 40, 50, 60]), _ => rng.range(lo as u64, 36) as u32 }).collect();
+    let qs = coeff_primes(n, &bits, rng)?;
+    // with the special-prime flag the first data level holds all primes; otherwise the last prime is the key prime
+    let special_flag = if total >= 20 { false } else if total == 1 { rng.bool() } else { rng.chance(1, 2) };
+    Some(Spec { scheme: SchemeType::CKKS, n, qs, t: 0, special_flag, expand: true, family: format!("chain{}-fam{}", total, fam) })
+}
+
+fn context_case(cfg: &Cfg, grp: &str, case: u64, rng: &mut Rng, rep: &mut Report, ns: &[usize], max_total: usize, per_level: usize) {
+    let n = *rng.pick(ns);
+    let total = if rng.chance(1, 6) { *rng.pick(&[1usize, 2, 3, max_total.min(19), max_total]) } else { rng.range(1, max_total as u64) as usize };
+    let Some(spec) = chain_spec(rng, n, total) else { rep.count("generator", "no primes"); return; };
+    let cut = match build(&spec) { Ok(c) => c, Err(e) => { rep.count("generator", "rejected"); rep.note(&format!("context rejected: {}", e.chars().take(120).collect::<String>())); return; } };
+    rep.count("generator", "ok");
+    rep.count("chains", &format!("data_levels={:02}", cut.lvls.len()));
+    for &q in &spec.qs { rep.count("prime_bits", &format!("{:02}", refm::bit_len(q))); }
+    let cx = Cx { cfg, grp, case };
+    for l in &cut.lvls {
+        for _ in 0..per_level { let inp = gen_input(rng, &cut, l); check_one(&cx, rep, &cut, l, &inp); }
+        if rng.chance(1, 3) { scale_refusals(&cx, rep, rng, &cut, l); }
+    }
+}
+
+/// fixed minimal inputs (deterministic; they double as the smallest reproductions of known weak spots)
+fn directed(cfg: &Cfg, grp: &str, case: u64, rep: &mut Report) {
+    let cx = Cx { cfg, grp, case };
+    let mk = |n: usize, bits: &[u32]| -> Option<Cut> {
+        let mut qs = vec![]; for &b in bits { let c = ntt_primes_up(n, b, 8).into_iter().find(|c| !qs.contains(c))?; qs.push(c); }
+        build(&Spec { scheme: SchemeType::CKKS, n, qs, t: 0, special_flag: true, expand: true, family: "directed".into() }).ok()
+    };
+    let inp = |entry: Entry, scale: f64, vclass: &'static str| Input { entry, scale, new_form: true, vclass, dirty: false };
+    match case {
+        0 => { // negative integer larger than a prime: two 20-bit primes, v = -(q0 + 5)
+            let Some(cut) = mk(4, &[20, 20]) else { return }; let l = &cut.lvls[0];
+            let v = -((l.qs[0] + 5) as i64);
+            check_one(&cx, rep, &cut, l, &inp(Entry::I64(v), 1.0, "directed:-(q0+5)"));
+            check_one(&cx, rep, &cut, l, &inp(Entry::I64(-v), 1.0, "directed:+(q0+5)"));
+            check_one(&cx, rep, &cut, l, &inp(Entry::I64(-5), 1.0, "directed:-5"));
+        }
+        1 => { // coefficient list whose scaled value needs more than 64 bits: [3] at scale 2^64, three 30-bit primes
+            let Some(cut) = mk(4, &[30, 30, 30]) else { return }; let l = &cut.lvls[0];
+            check_one(&cx, rep, &cut, l, &inp(Entry::Poly(vec![3.0]), 2f64.powi(64), "directed:[3]*2^64"));
+            check_one(&cx, rep, &cut, l, &inp(Entry::Poly(vec![-3.0, 1.0]), 2f64.powi(62), "directed:[-3,1]*2^62"));
+            check_one(&cx, rep, &cut, l, &inp(Entry::F64(3.0), 2f64.powi(64), "directed:3*2^64"));
+        }
+        2 => { // scaled magnitude between q/2 and 2^(bitlen(q)-1): one 20-bit prime, constant 300000 at scale 1
+            let Some(cut) = mk(4, &[20]) else { return }; let l = &cut.lvls[0];
+            let x = (l.qs[0] / 2 + 1000) as f64;
+            check_one(&cx, rep, &cut, l, &inp(Entry::Arr(vec![C64::new(x, 0.0); 2]), 1.0, "directed:q/2+1000"));
+            check_one(&cx, rep, &cut, l, &inp(Entry::Poly(vec![x]), 1.0, "directed:q/2+1000"));
+            check_one(&cx, rep, &cut, l, &inp(Entry::F64(x), 1.0, "directed:q/2+1000"));
+        }
+        3 => { // i64::MIN and i64::MAX where they fit (bitlen(q) > 66)
+            let Some(cut) = mk(4, &[40, 40]) else { return }; let l = &cut.lvls[0];
+            check_one(&cx, rep, &cut, l, &inp(Entry::I64(i64::MIN), 1.0, "directed:i64::MIN"));
+            check_one(&cx, rep, &cut, l, &inp(Entry::I64(i64::MAX), 1.0, "directed:i64::MAX"));
+            check_one(&cx, rep, &cut, l, &inp(Entry::I64(i64::MIN + 1), 1.0, "directed:i64::MIN+1"));
+        }
+        _ => { // complex values through the three paths, smallest degree
+            let Some(cut) = mk(4, &[50, 50, 50, 50]) else { return }; let l = &cut.lvls[0];
+            for s in [10, 70, 140] { check_one(&cx, rep, &cut, l, &inp(Entry::Arr(vec![C64::new(-1.5, 2.25), C64::new(0.0, -3.0)]), 2f64.powi(s), "directed:complex")); }
+        }
+    }
+}
+
+pub fn run(cfg: &Cfg, rep: &mut Report) -> PropMeta {
+    run_cases(cfg, "directed", 5, rep, |case, _rng, rep| directed(cfg, "directed", case, rep));
+    // long chains (1..20 primes in total => 1..19 at the data levels), N = 4..64
+    run_cases(cfg, "long_chains", cfg.n(420, 5000) as u64, rep, |case, rng, rep| context_case(cfg, "long_chains", case, rng, rep, &[4, 8, 16, 32, 64], 20, cfg.pick(30, 40)));
+    // short chains, larger degrees
+    run_cases(cfg, "short_chains", cfg.n(96, 500) as u64, rep, |case, rng, rep| context_case(cfg, "short_chains", case, rng, rep, cfg.pick(&[128, 256, 512, 1024][..], &[128, 256, 512, 1024, 2048][..]), 4, cfg.pick(20, 30)));
+    if !cfg.quick() {
+        run_cases(cfg, "large_degree", cfg.n(1, 24) as u64, rep, |case, rng, rep| context_case(cfg, "large_degree", case, rng, rep, &[4096, 8192], 3, 3));
+    }
+    PropMeta {
+        id: P, level: "exploration",
+        rule: "one evaluation = one (context, level, entry point, form, input, scale) whose encoding was inverse-transformed with the O(N^2) reference, CRT-lifted to one centered integer vector, re-reduced modulo every prime and compared with the rounded scaled reference embedding (then decoded and compared with the input), or one must-refuse input; distinct = entry point x form x value class x magnitude path x primes at the level x degree (refusals: entry x form x reason x primes)",
+        assumptions: vec![
+            "coefficient tolerance 1/2 + scale*max|v|*2^-52*(N/2 + 8 log2 N + 32): worst-case error of the library's log2 N butterfly stages plus that of the naive reference embedding (derivation in the module comment)".into(),
+            "direct entries (real single, coefficient list): 1/2 when value*scale is exact (power-of-two scale) and below 2^53, else 1/2 + 2^-51*|value*scale|; integer entry: exact equality".into(),
+            "decode tolerance = (sum of coefficient tolerances)/scale + he::ckks_fp_tolerance (documented double-precision cancellation of the decoder); a word of q being exactly 0 (probability 2^-64) is ignored in that bound".into(),
+            "asserted domain: scale > 0, log2(scale) < bitlen(q)-1, scaled magnitude <= 2^(bitlen(q)-2) (documented 'plus one sign bit' rule; integers: |v| < 2^(bitlen(q)-3)); must-refuse: scale <= 0, scale >= 2^(bitlen(q)-1), scaled magnitude > q/2; a 2^-20 relative band around the thresholds and the gap between them are executed but not asserted".into(),
+            "scales are doubles, so scales and scaled magnitudes above 2^1023 (possible for chains beyond ~17 sixty-bit primes) are not representable and not exercised; empty coefficient lists are executed but not asserted".into(),
+            "degrees above 8192 (quick: above 1024) are not exercised; only data levels are used (the decoder rejects plaintexts on a pure key level)".into(),
+        ],
+        exhaustive: false,
+        floor: cfg.pick(20000, 200000),
+    }
 }
